@@ -1,10 +1,18 @@
 //! Independent reference models. None of them uses a crate the library uses
 //! for the same job.
+pub mod aes;
+pub mod b58;
 pub mod hashes;
+pub mod script;
+pub mod secp;
 
 pub fn selftest() -> Result<usize, String> {
     let mut n = 0;
     n += hashes::selftest()?;
+    n += script::selftest()?;
+    n += aes::selftest()?;
+    n += secp::selftest()?;
+    n += b58::selftest()?;
     Ok(n)
 }
 
@@ -36,5 +44,6 @@ pub fn refdump() -> Vec<String> {
             out.push(format!("pbkdf2-{} {} {} {} {} {}", h.name(), hex::encode(&p), hex::encode(&s), it, ol, hex::encode(hashes::pbkdf2(h, &p, &s, it, ol))));
         }
     }
+    out.extend(aes::refdump_lines());
     out
 }
